@@ -105,6 +105,10 @@ def merge_corpus(tier):
     docs.append(("l", (rec("true", "x"), rec("7", "w"))))
     docs.append(("l", (rec("1", "y"), rec(" 7", "z"))))
     docs.append(("m", (("a", ("l", ())),)))
+    # anchored booleans (ruamel wraps them in an int subclass of its own)
+    docs.append(("l", (("&", "T", True), 0)))
+    docs.append(("l", (("m", (("id", ("&", "Y", True)), ("v", "x"))),)))
+    docs.append(("m", (("a", ("l", (("&", "F", False), ("*", "F"), 2))),)))
     # twin Arrays-of-Hashes: an identity key configured for one of them
     docs.append(("m", (("p", ("l", (rec(1, "x"),))),
                        ("d", ("l", (rec(1, "x"),))))))
